@@ -107,18 +107,21 @@ PROTO_REPLACE.update({
   'operator>>(std::istream&, __mpz_struct*)': 'vfstub_mpz_in(std::istream&, __mpz_struct*)',
   'tmcg_mpz_shash(__mpz_struct*, unsigned long, ...)': 'vfstub_shash_va(__mpz_struct*, unsigned long, ...)',
   'tmcg_mpz_shash(__mpz_struct*, std::string const&)': 'vfstub_shash_str(__mpz_struct*, std::string const&)',
-  'tmcg_mpz_shash_1vec': 'vfstub_shash_1vec', 'tmcg_mpz_shash_2vec': 'vfstub_shash_2vec', 'tmcg_mpz_shash_4vec': 'vfstub_shash_4vec',
+  'tmcg_mpz_shash_len': 'vfstub_shash_len', 'tmcg_mpz_shash_1vec': 'vfstub_shash_1vec', 'tmcg_mpz_shash_2vec': 'vfstub_shash_2vec', 'tmcg_mpz_shash_4vec': 'vfstub_shash_4vec',
   'tmcg_mpz_shash_2pairvec': 'vfstub_shash_2pairvec', 'tmcg_mpz_shash_2pairvec2vec': 'vfstub_shash_2pairvec2vec', 'tmcg_mpz_shash_4pairvec2vec': 'vfstub_shash_4pairvec2vec'})
 PROTO_ASSUME = ['coin stubs: tmcg_mpz_*random{m,b} return an arbitrary value in their documented range (bounded number of draws)',
                 'hash tmcg_mpz_shash*: memoised nondeterministic function of the argument values, digest width H_DBITS bits (random-oracle idealisation restricted to the calls made)',
                 'mpz stream operators: binary tokens instead of base-62 text (the text operators are checked separately)']
-GROUPS_Q = [dict(H_P=23, H_Q=11, H_G=2, H_K=2), dict(H_P=7, H_Q=3, H_G=2, H_K=2), dict(H_P=13, H_Q=3, H_G=3, H_K=4)]
-GROUPS_T = GROUPS_Q + [dict(H_P=11, H_Q=5, H_G=3, H_K=2), dict(H_P=29, H_Q=7, H_G=7, H_K=4), dict(H_P=31, H_Q=5, H_G=2, H_K=6), dict(H_P=47, H_Q=23, H_G=2, H_K=2)]
-VTMF_TU = ['BarnettSmartVTMF_dlog.cc', 'mpz_spowm.cc']
+def GRP(p, q, g, k, dbits=4):
+    vb = max(2 * p.bit_length(), dbits + q.bit_length() + 1) + 1
+    return dict(H_P=p, H_Q=q, H_G=g, H_K=k, VF_BITS=vb)
+GROUPS_Q = [GRP(7, 3, 2, 2), GRP(11, 5, 3, 2)]
+GROUPS_T = GROUPS_Q + [GRP(13, 3, 3, 4), GRP(23, 11, 2, 2), GRP(29, 7, 7, 4), GRP(31, 5, 2, 6), GRP(47, 23, 2, 2)]
+VTMF_TU = ['BarnettSmartVTMF_dlog.cc', 'mpz_spowm.cc', 'mpz_sprime.cc']
 def PROTO(prop, name, src, entry, desc, symbolic, tu=VTMF_TU, groups=None, groupsT=None, **kw):
-    d = dict(id='%s_%s' % (prop, name), property=prop, src=src, entry=entry, tu=list(tu), unwind=10, replace=PROTO_REPLACE,
-             defines={'VF_BITS': 15, 'H_MAXDRAWS': 12, 'MINISTL_STREAM_CAP': 512, 'H_DBITS': 4}, config={'TMCG_MAX_FPOWM_T': 8},
-             desc=desc, symbolic=symbolic, assumptions=PROTO_ASSUME, slices=groups or GROUPS_Q,
+    d = dict(id='%s_%s' % (prop, name), property=prop, src=src, entry=entry, tu=list(tu), unwind=24, replace=PROTO_REPLACE,
+             defines={'VF_BITS': 12, 'H_MAXDRAWS': 12, 'MINISTL_STREAM_CAP': 512, 'H_DBITS': 4}, config={'TMCG_MAX_FPOWM_T': 8},
+             desc=desc, symbolic=symbolic, assumptions=PROTO_ASSUME, slices=groups or GROUPS_Q, backend='kissat', memgb=6,
              bounds='toy Schnorr groups (p,q,g,k) one query per group: quick %s; thorough adds more; 4-bit digests; TMCG_MAX_FPOWM_T=8' % [tuple(g.values()) for g in (groups or GROUPS_Q)],
              tiers={'thorough': {'slices': groupsT or GROUPS_T, 'timeout': 3000}})
     d.update(kw); H(**d)
